@@ -28,10 +28,11 @@ fn random_tape(r: &mut Rng, max_blocks: u64, header_ok: bool) -> Vec<Vec<u8>> {
     let n = 1 + r.below(max_blocks);
     (0..n)
         .map(|i| {
-            let len = *r.pick(&[2usize, 3, 5, 19, 40]);
+            // mostly short blocks; now and then one around and beyond the player's 128-byte streaming window
+            let len = if r.chance(1, 6) { *r.pick(&[127usize, 128, 129, 130, 257, 300]) } else { *r.pick(&[2usize, 3, 5, 19, 40]) };
             let mut b = r.bytes(len);
-            // flag byte: header (0x00, long pilot) only rarely, it costs 8063 edges
-            b[0] = if header_ok && i == 0 && r.chance(1, 3) { 0 } else { *r.pick(&[0xFFu8, 0x01, 0x80, 0x7E]) };
+            // flag byte: header (0x00, long pilot of 8063 edges) at any position, but not too often
+            b[0] = if header_ok && r.chance(1, if i == 0 { 3 } else { 4 }) { 0 } else { *r.pick(&[0xFFu8, 0x01, 0x80, 0x7E]) };
             if r.chance(1, 2) {
                 // byte values that exercise every bit position
                 let k = r.below(len as u64 - 1) as usize + 1;
@@ -46,21 +47,32 @@ struct Deck {
     tap: Tap<DynAsset>,
     since: u64,
     level: bool,
+    /// the player returned an error (or never finished) on a well-formed tape: recorded as an event, the run ends
+    failed: bool,
 }
 
 impl Deck {
     fn new(blocks: &[Vec<u8>]) -> Self {
         let tap = Tap::from_asset(DynAsset::mem(tap_bytes(blocks))).expect("tap");
         let level = tap.current_bit();
-        Deck { tap, since: 0, level }
+        Deck { tap, since: 0, level, failed: false }
     }
     fn stopped(&self) -> bool {
         self.tap.can_fast_load()
     }
+    fn fail(&mut self, out: &mut Out, detail: String) {
+        if !self.failed {
+            out.ev(json!({"ev":"taperr","detail":detail}));
+        }
+        self.failed = true;
+    }
     /// one process_clocks call; emits edge / autostop events
     fn adv(&mut self, c: usize, out: &mut Out) {
         let was_playing = !self.stopped();
-        self.tap.process_clocks(c).expect("process_clocks");
+        if let Err(e) = self.tap.process_clocks(c) {
+            self.fail(out, format!("process_clocks: {e:?}"));
+            return;
+        }
         let lv = self.tap.current_bit();
         if was_playing {
             self.since += c as u64;
@@ -79,7 +91,7 @@ impl Deck {
     /// lets `t` T-states pass in steps of 0..16
     fn run(&mut self, t: u64, r: &mut Rng, out: &mut Out) {
         let mut left = t;
-        while left > 0 {
+        while left > 0 && !self.failed {
             let c = (r.below(17)).min(left);
             self.adv(c as usize, out);
             left -= c;
@@ -133,16 +145,24 @@ fn waveform(out: &mut Out, r: &mut Rng, tapes: u64) {
         out.ev(json!({"ev":"play","was_stopped":d.stopped()}));
         d.tap.play();
         let mut guard = 0u64;
-        while !d.stopped() {
+        while !d.stopped() && !d.failed {
             let c = pol.next(r) as usize;
             d.adv(c, out);
             guard += 1;
-            assert!(guard < 200_000_000, "tape never ends");
+            if guard >= 200_000_000 {
+                d.fail(out, "tape never ends".into());
+            }
+        }
+        if d.failed {
+            continue;
         }
         // stopped deck: level must stay frozen
         let before = d.tap.current_bit();
         for _ in 0..1000 {
-            d.tap.process_clocks(r.below(17) as usize).unwrap();
+            if let Err(e) = d.tap.process_clocks(r.below(17) as usize) {
+                d.fail(out, format!("process_clocks while stopped: {e:?}"));
+                break;
+            }
         }
         out.ev(json!({"ev":"idle","clocks":8000,"changed": d.tap.current_bit() != before}));
     }
@@ -151,10 +171,14 @@ fn waveform(out: &mut Out, r: &mut Rng, tapes: u64) {
 /// C12: random command histories at every phase of the waveform
 fn commands(out: &mut Out, r: &mut Rng, histories: u64, len: u64) {
     for _ in 0..histories {
-        let blocks = random_tape(r, 2, false);
+        let hdr = r.chance(1, 4);
+        let blocks = random_tape(r, 2, hdr);
         out.ev(json!({"ev":"tape","blocks":blocks}));
         let mut d = Deck::new(&blocks);
         for _ in 0..len {
+            if d.failed {
+                break;
+            }
             match r.below(10) {
                 0..=2 => {
                     out.ev(json!({"ev":"play","was_stopped":d.stopped()}));
@@ -167,7 +191,9 @@ fn commands(out: &mut Out, r: &mut Rng, histories: u64, len: u64) {
                 5 => {
                     if r.chance(1, 2) {
                         out.ev(json!({"ev":"rewind"}));
-                        d.tap.rewind().expect("rewind");
+                        if let Err(e) = d.tap.rewind() {
+                            d.fail(out, format!("rewind: {e:?}"));
+                        }
                         d.level = d.tap.current_bit();
                         d.since = 0;
                     }
@@ -187,7 +213,10 @@ fn commands(out: &mut Out, r: &mut Rng, histories: u64, len: u64) {
                         let mut left = t.min(100_000);
                         while left > 0 {
                             let c = r.below(17).min(left);
-                            d.tap.process_clocks(c as usize).unwrap();
+                            if let Err(e) = d.tap.process_clocks(c as usize) {
+                                d.fail(out, format!("process_clocks while stopped: {e:?}"));
+                                break;
+                            }
                             left -= c;
                         }
                         let changed = d.tap.current_bit() != before;
@@ -200,15 +229,17 @@ fn commands(out: &mut Out, r: &mut Rng, histories: u64, len: u64) {
             }
         }
         // finally let the tape run out so that WholeTape is judged
-        if d.stopped() {
+        if d.stopped() && !d.failed {
             out.ev(json!({"ev":"play","was_stopped":true}));
             d.tap.play();
         }
         let mut guard = 0u64;
-        while !d.stopped() {
+        while !d.stopped() && !d.failed {
             d.adv(r.below(17) as usize, out);
             guard += 1;
-            assert!(guard < 400_000_000, "tape never ends");
+            if guard >= 400_000_000 {
+                d.fail(out, "tape never ends".into());
+            }
         }
     }
 }
@@ -236,7 +267,10 @@ fn page_rom1(emu: &mut Emu) {
 /// Issues one LD-BYTES request and runs until the routine leaves through SA/LD-RET (0x053F) or
 /// `max_frames` pass. Returns the event.
 fn ld_request(emu: &mut Emu, rq: &Req, prefill: Option<&[u8]>, max_frames: usize, r: &mut Rng) -> Value {
-    let span = rq.de as usize + 4;
+    // the window that is prepared and compared: no block of the driver has more than 702 bytes, so nothing beyond
+    // 704 bytes from IX can be touched even by a request for 65535 bytes (and the window stays clear of the caller
+    // stub and the stack in the printer buffer)
+    let span = (rq.de as usize).min(704) + 4;
     let base = rq.ix.wrapping_sub(2);
     // destination region gets known contents (for VERIFY: the caller decides what)
     for k in 0..span {
@@ -306,6 +340,8 @@ fn request_for(r: &mut Rng, blk: Option<&Vec<u8>>) -> Req {
         1 => dl.saturating_sub(1),
         2 => dl + 1,
         3 => r.below(400) as usize,
+        // D = 0xFF: INC D at the routine's entry sets Z and the ROM treats the flag byte as data
+        4 => 0xFF00 + *r.pick(&[0usize, 1, 0x80, 0xFE, 0xFF]),
         _ => dl,
     } as u16;
     Req {
